@@ -163,7 +163,7 @@ for name, r in sorted(results.items()):
             "origin": "written by a fresh sub-agent that was given only the text of the property and its own scratch worktree",
             "needs_to_manifest": notes.strip()[:1500],
             "verified_by_lead": {
-                "how": "tools/verify_mutant.sh in a scratch worktree of /repo HEAD: demo on the clean tree, demo with the patch, full unedited test-suite (-n 8) compared with the baseline failure set, then ./check <P> --tier quick with JMON_REPO=<worktree>",
+                "how": "tools/verify_mutant.sh in a scratch worktree of /repo HEAD: demo on the clean tree, demo with the patch, unedited test-suite compared with the baseline failure set (whole suite; from round 5 batch 2 on, for a change confined to one environment package the tests that can import it - that package, the top-level suites, jumanji/testing, jumanji/training, environments/commons - see existing_tests), then ./check <P> --tier quick with JMON_REPO=<worktree>",
                 "demo_exit_clean": int(r["demo"][0]), "demo_exit_with_patch": int(r["demo"][1]), "existing_tests": r["tests"],
             },
             "checks_run": r["checks"], "caught_by": caught, "not_caught_by": missed,
